@@ -128,27 +128,55 @@ pub const EXEMPLARS: &[&str] = &[
     "S: A1; A1: A; A: 'a'+ ; terminals A_: 'a';",
     "S: A+ A1; A1: 'b'; terminals A: 'a'; B: 'b';",
     "S: A? AOpt; AOpt: 'b'; terminals A: 'a'; B: 'b';",
+    "S: A; terminals A: 'a'; B: ;",
+    "S: A; terminals A: 'a'; B: {5};",
+    "S: A; U: B; terminals A: 'a'; B: ;",
+    "S: A; Layout: WS*; terminals A: 'a'; WS: ;",
+    "S: A; Layout: WS | EMPTY; terminals A: 'a'; WS: /\\s+/; C: ;",
+    "S: A; U: U A | EMPTY; terminals A: 'a'; B: 'b';",
+    "S: A; U: V; V: U; terminals A: 'a';",
+    "S: A; U: 'x'; terminals A: 'a';",
+    "S: A; U: x=A y=A* z=U?; terminals A: /a/;",
     "S: A* A0; A0: 'b'; terminals A: 'a'; B: 'b';",
 ];
 
 const HOSTILE_CHARS: &[&str] = &["{", "}", "[", "]", "(", ")", ":", ";", "|", "*", "+", "?", "!", "=", "?=", "@", "'", "\"", "/", "\\", ",", ".", "0", "9", "a", "Z", "_", " ", "\n", "é", "𝄞", "\u{0}", "*!", "+!", "terminals", "EMPTY", "STOP", "Layout", "import", "left", "nops", "@vec", "99999999999"];
 
 fn tokens(text: &str) -> Vec<String> {
-    // crude tokenisation good enough for token-level mutation
+    // crude tokenisation good enough for token-level mutation: words, quoted strings, regexes, single characters
     let mut out = vec![];
-    let mut cur = String::new();
-    for c in text.chars() {
-        if c.is_alphanumeric() || c == '_' {
-            cur.push(c);
-        } else {
-            if !cur.is_empty() {
-                out.push(std::mem::take(&mut cur));
+    let c: Vec<char> = text.chars().collect();
+    let mut i = 0;
+    while i < c.len() {
+        let ch = c[i];
+        if ch.is_alphanumeric() || ch == '_' {
+            let mut w = String::new();
+            while i < c.len() && (c[i].is_alphanumeric() || c[i] == '_') {
+                w.push(c[i]);
+                i += 1;
             }
-            out.push(c.to_string());
+            out.push(w);
+        } else if ch == '\'' || ch == '"' || (ch == '/' && i + 1 < c.len() && c[i + 1] != '/' && c[i + 1] != '*') {
+            let q = ch;
+            let mut w = String::from(q);
+            i += 1;
+            while i < c.len() && c[i] != q && c[i] != '\n' {
+                if c[i] == '\\' && i + 1 < c.len() {
+                    w.push(c[i]);
+                    i += 1;
+                }
+                w.push(c[i]);
+                i += 1;
+            }
+            if i < c.len() && c[i] == q {
+                w.push(q);
+                i += 1;
+            }
+            out.push(w);
+        } else {
+            out.push(ch.to_string());
+            i += 1;
         }
-    }
-    if !cur.is_empty() {
-        out.push(cur);
     }
     out
 }
@@ -304,7 +332,7 @@ pub fn main(a: &Args) {
             5 => ("lex", gen_lex(&mut rng).text()),
             6 => {
                 let g = gen_bnf(&mut rng, &BnfOpts::default());
-                ("layout", grammar_text(&g, rng.range(1, 3) as u8))
+                ("layout", grammar_text(&g, rng.range(1, 6) as u8))
             }
             7 => ("expr", gen_expr(&mut rng).text),
             _ => ("ast", crate::astgen::gen_ast(&mut rng).text()),
